@@ -89,18 +89,27 @@ def client_for(c: Dict[str, Any]) -> K.Peer:
 
 def run_mode(c: Dict[str, Any], mode: str) -> Dict[str, Any]:
     listener = c.get('listener', 'tcp')
-    w = K.World(flags_for(mode, listener != 'tcp', bool(c.get('events')), c['role'] == 'failed-setup'), max_iters=60000, settle=6)
+    w = K.World(flags_for(mode, listener in ('unix', 'unix+tcp'), bool(c.get('events')), c['role'] == 'failed-setup'), max_iters=200000, settle=6)
     client = client_for(c)
+    plan = {'caps': c['caps_client']} if c.get('caps_client') else None      # short writes towards the client: output stays queued
     if listener == 'unix':
-        w.add_client(client, addr='')       # accept() on a unix socket reports an empty peer address
+        w.add_client(client, plan=plan, addr='')       # accept() on a unix socket reports an empty peer address
+    elif listener == 'tcp6':
+        w.add_client(client, plan=plan, addr=('::1', 50000, 0, 0))      # what accept() reports for an IPv6 peer
     else:
-        w.add_client(client)                # 'tcp', or 'unix+tcp': a client of one of the TCP ports next to the unix socket
+        w.add_client(client, plan=plan)     # 'tcp', or 'unix+tcp': a client of one of the TCP ports next to the unix socket
     origins: List[K.Peer] = []
     ending = c['ending']
 
     def fac(world: K.World, addr: Tuple[str, int], idx: int) -> Tuple[K.Peer, Optional[Dict[str, Any]]]:
         if addr[1] == 443:
             o: K.Peer = c05.echo_origin('origin%d' % idx)
+        elif ending == 'origin_close_after_reply':
+            # the origin answers every complete request and closes right after its (large) reply: with a slow client the proxy
+            # learns of the close while output is still queued
+            o = ReactiveOrigin('origin%d' % idx, responder=lambda o_, raw, n: tag_response(addr[0], n, raw, extra_body=stream(max(c.get('resp_size', 0), 70000), n), close=True),
+                               finish='close_after_rx')
+            o.expect_rx = 1
         elif ending == 'origin_early_close':
             from vf.props.c01 import AwaitPeer
             o = AwaitPeer('origin%d' % idx, out=b'HTTP/1.1 413 Too Large\r\nConnection: close\r\nContent-Length: 3\r\n\r\nbig',
@@ -181,7 +190,8 @@ def replay(case: Dict[str, Any]) -> List[Dict[str, Any]]:
 def cases(draw: Any) -> Dict[str, Any]:
     role = draw(st.sampled_from(['forward', 'forward', 'tunnel', 'web', 'reverse', 'bytes', 'failed-setup']))
     c: Dict[str, Any] = {'role': role, 'schedule': draw(st.lists(st.integers(0, 3), max_size=30)),
-                         'listener': draw(st.sampled_from(['tcp', 'tcp', 'tcp', 'unix', 'unix+tcp'])),
+                         'listener': draw(st.sampled_from(['tcp', 'tcp', 'tcp', 'unix', 'unix+tcp', 'tcp6'])),
+                         'caps_client': draw(st.lists(st.sampled_from([1, 7, 64, 1460, None]), min_size=1, max_size=4)) if draw(st.integers(0, 3)) == 0 else None,
                          'events': draw(st.integers(0, 3)) == 0, 'obs_text': draw(st.integers(0, 3)) == 0}
     sizes = st.sampled_from([0, 1, 20, 300, 5000, 70000, 300000])
     if role == 'failed-setup':
@@ -210,8 +220,10 @@ def cases(draw: Any) -> Dict[str, Any]:
     c['resp_size'] = draw(sizes)
     endings = ['none', 'client_close', 'client_shut']
     if role in ('forward', 'reverse'):
-        endings += ['origin_close', 'connect_refused']      # an origin that answers early and closes is a race by nature: C07 covers it per mode
+        endings += ['origin_close', 'connect_refused', 'origin_close_after_reply']      # an origin that answers early and closes is a race by nature: C07 covers it per mode
     c['ending'] = draw(st.sampled_from(endings))
+    if c['ending'] == 'origin_close_after_reply':
+        c['requests'] = reqs[:1]      # what a client does on a connection the origin has ended is a race, one exchange only
     return c
 
 
